@@ -696,6 +696,72 @@ def r64(ctx, instances):
                            f"{y.label}", nontrivial=False)
 
 
+def r64_eval(ctx, repo):
+    """`compute_emodulus` (loaded from its syntax tree, the two computing
+    functions replaced by recording stand-ins) on the table of settings:
+    which scenario of the documentation is chosen."""
+    import itertools
+    from ..lib_C06 import EmodDispatchModel, FeatData
+    func = repo.func(FA + "af_emodulus.py", "compute_emodulus")
+    m = EmodDispatchModel(repo)
+    known = [x for x in m.known_media if x != x.lower() or x == "water"]
+    media = [None, "other", "Other", "OTHER"] + known[:3] + [
+        x.lower() for x in known[:2]] + ["no such medium"]
+    bad = None
+    n = 0
+    for med, temp, visc, model, has_temp in itertools.product(
+            media, (None, 23.0), (None, 5.0), (None, "herold-2017"),
+            (False, True)):
+        cfg = {"emodulus lut": "LE-2D-FEM-19"}
+        if med is not None:
+            cfg["emodulus medium"] = med
+        if temp is not None:
+            cfg["emodulus temperature"] = temp
+        if visc is not None:
+            cfg["emodulus viscosity"] = visc
+        if model is not None:
+            cfg["emodulus viscosity model"] = model
+        (r, ds) = m.run(cfg, has_temp)
+        n += 1
+        is_other = med is None or med.lower() == "other"
+        if visc is not None and is_other:
+            want = "case B (viscosity given, medium 'other' in any spelling)"
+            ok = r == ("ok", ("emodulus", "viscosity only"))
+        elif is_other or med == "no such medium":
+            want = "ValueError (medium not known)"
+            ok = r[0] == "raise" and r[1] == "ValueError"
+        elif visc is not None:
+            want = "ValueError (viscosity given for a known medium)"
+            ok = r[0] == "raise" and r[1] == "ValueError"
+        elif temp is not None:
+            want = "case C (configured temperature, also when the dataset " \
+                   "has a temp feature)"
+            ok = r == ("ok", ("emodulus", "known media", temp))
+        elif has_temp:
+            want = "case A (temperature from the temp feature)"
+            ok = r[0] == "ok" and isinstance(r[1], tuple) and len(
+                r[1]) == 3 and r[1][1] == "known media" and isinstance(
+                r[1][2], FeatData) and r[1][2] is ds.feats["temp"]
+        else:
+            want = "no result (no temperature source)"
+            ok = r == ("ok", None) or r[0] == "raise"
+        if not ok and bad is None:
+            bad = (f"[calculation] {cfg}, temp feature "
+                   f"{'present' if has_temp else 'absent'}: "
+                   f"compute_emodulus -> {r!r}, expected {want}")
+    if bad and any(k in bad for k in ("'FeatData'", "'DS'")) and (
+            "AttributeError" in bad or "TypeError" in bad):
+        raise AnalysisError("r64_eval: the model lacks what the code uses: "
+                            + bad[:300])
+    ctx.ob("R6.4", bad is None, f"{n} settings (medium absent / 'other' in "
+           "three spellings / known in original and lower case / unknown; "
+           "temperature, viscosity, viscosity model set or not; temp feature "
+           "present or not): the scenario chosen is the documented one "
+           "(B for a given viscosity with medium 'other', C before A)"
+           if bad is None else bad, node=func, label="model: scenario table")
+    ctx.stat("R6.4 scenario table rows", n)
+
+
 # ----------------------------------------------------------------------
 # R6.5
 
@@ -1243,6 +1309,7 @@ def run(ctx):
     r62_eval(ctx, repo)
     r63(ctx, repo)
     r64(ctx, instances)
+    r64_eval(ctx, repo)
     r65(ctx, repo)
     r66(ctx, repo)
     r67(ctx, repo)
